@@ -51,6 +51,14 @@ def gen_script(rng, tier, mt=False):
                 algo = "optfast"
             L.append("TRAIN %s %d %d %d %d %d %d %d %d %d %d" % (algo, cap, k, d, f, accel, steps, split, shrink, nbt, level))
     if not mt:
+        # directed: a training part (after the split) too small to hold one d-mer although all samples together would
+        L.append("SAMPLES %s 10 1 1 %d" % (rng.choice(["mix", "text"]), rng.randint(1, 9999)))
+        L.append("TRAIN optcover 256 64 0 1 1 2 75 0 0 3")
+        L.append("TRAIN optfast 256 64 0 12 1 2 75 0 0 3")
+        L.append("TRAIN cover 256 64 8 0 0 0 100 0 0 3")
+        L.append("SAMPLES text 8 1 2 %d" % rng.randint(1, 9999))
+        L.append("TRAIN optfast 300 16 6 12 1 1 50 0 1 3")
+        L.append("TRAIN optcover 300 16 6 0 0 1 50 0 1 3")
         # directed: the tail of the d-mer range (k large against a small corpus, d below 8, no test split)
         L.append("SAMPLES text 16 512 512 %d" % rng.randint(1, 9999))
         for d in (6, 8):
